@@ -760,8 +760,8 @@ pub fn thresholds(ctx: &Ctx, rep: &Report) -> Vec<Threshold> {
                 required: 500.0 * big,
                 observed: rep.counter(&format!("{}/leading_term_resolved_100x", key)) as f64,
             });
-            t.push(Threshold { what: format!("{} cases with >= 2 exactly zero samples on the stencil", key), required: 2_000.0 * big, observed: (2..=4).map(|k| rep.counter(&format!("{}/stencil_zero_cases_with_{}_zero_samples", key, k))).sum::<i64>() as f64 });
-            t.push(Threshold { what: format!("{} single-precision cases at x = +-0", key), required: 1_000.0 * big, observed: rep.counter(&format!("{}_f32/f32_cases_at_zero", key)) as f64 });
+            t.push(Threshold { what: format!("{} cases with >= 2 exactly zero samples on the stencil", key), required: ctx.tier.pick(2_000.0, 50_000.0), observed: (2..=4).map(|k| rep.counter(&format!("{}/stencil_zero_cases_with_{}_zero_samples", key, k))).sum::<i64>() as f64 });
+            t.push(Threshold { what: format!("{} single-precision cases at x = +-0", key), required: ctx.tier.pick(1_000.0, 25_000.0), observed: rep.counter(&format!("{}_f32/f32_cases_at_zero", key)) as f64 });
             t.push(Threshold { what: format!("{} linearity cases", key), required: 1_500.0 * big, observed: rep.counter(&format!("{}/linearity_cases", key)) as f64 });
             t.push(Threshold { what: format!("{} remainder-bound cases", key), required: 2_000.0 * big, observed: rep.counter(&format!("{}/smooth_cases", key)) as f64 });
             t.push(Threshold { what: format!("{} remainder-bound cases dominated by truncation (bound > 1000 x rounding allowance)", key), required: 500.0 * big, observed: rep.counter(&format!("{}/truncation_dominated", key)) as f64 });
